@@ -1,0 +1,30 @@
+//go:build verif
+
+package directive
+
+import (
+	"sort"
+
+	"github.com/jsightapi/jsight-schema-core/bytes"
+	"github.com/jsightapi/jsight-schema-core/fs"
+)
+
+// VerifKeywordCoords exposes the keyword coordinates (read-only, verification builds only).
+func (d *Directive) VerifKeywordCoords() (file *fs.File, begin, end bytes.Index) {
+	return d.keywordCoords.file, d.keywordCoords.begin, d.keywordCoords.end
+}
+
+// VerifBodyCoords exposes the body coordinates (read-only, verification builds only).
+func (d *Directive) VerifBodyCoords() (file *fs.File, begin, end bytes.Index) {
+	return d.BodyCoords.file, d.BodyCoords.begin, d.BodyCoords.end
+}
+
+// VerifNamedParameters returns the named parameters sorted by key.
+func (d *Directive) VerifNamedParameters() [][2]string {
+	out := make([][2]string, 0, len(d.namedParameters))
+	for k, v := range d.namedParameters {
+		out = append(out, [2]string{k, v})
+	}
+	sort.Slice(out, func(i, j int) bool { return out[i][0] < out[j][0] })
+	return out
+}
